@@ -398,6 +398,12 @@ Den(D, n) ==
              r1  == IF Catchable(raw) /\ FRec(D, rec).catch THEN FRec(D, rec).onerr ELSE raw IN
          IF r1 = NoneV /\ ~AllowNone(D, ctx, n[3]) THEN ErrNone ELSE r1
 
+\* what the formula of n evaluates to before its handler (if any) and the None rule apply
+RawDen(D, n) ==
+    LET ctx == <<n[1], n[2]>>
+        rec == CellRecOf(D, ctx, n[3]) IN
+    EvOps(D, ctx, n[4], FRec(D, rec).ops, 1, 0)
+
 NodeExists(D, n) ==
     /\ CtxExists(D, <<n[1], n[2]>>)
     /\ n[3] \in ENames(D, CtxBase(D, <<n[1], n[2]>>), "cells")
